@@ -81,6 +81,17 @@ def pl_bytes(pl):
     raise ValueError(k)
 
 
+def pl_len_hash(pl):
+    """(length, content hash) of a peer payload spec; generated payloads are hashed once per (len, tag)"""
+    if pl is None:
+        return 0, phash(b"")
+    if pl.get("k", "tag") == "tag":
+        n = pl.get("len", 0)
+        return n, tag_hash(n, pl.get("tag", 0) if n else 0)
+    b = pl_bytes(pl)
+    return len(b), phash(b)
+
+
 # special payloads get tags above 2^48 so that they never clash with generated ones
 def pl_len_tag_info(pl):
     """(len, tag, info-tokens) of a peer payload spec, as the model sees it"""
@@ -532,9 +543,9 @@ def go_view(script, go):
             else:
                 typ = T_KA if op == "keepalive" else st["typ"]
                 mid, pl = o.get("id", st.get("id", 0)), st.get("pl")
-            b = pl_bytes(pl)
-            peer.append(dict(typ=typ, id=mid, len=len(b), hash=phash(b), op=op, st=o.get("st"), first=(op == "connect"),
-                             cut=st.get("cut")))
+            pn, ph = pl_len_hash(pl)
+            peer.append(dict(typ=typ, id=mid, len=pn, hash=ph, op=op, st=o.get("st"), first=(op == "connect"),
+                             cut=st.get("cut"), skip=st.get("skip"), to=(st.get("to") if op == "reply" else None)))
     reqs = {}
     for st in script["steps"]:
         if st["op"] == "send":
@@ -550,6 +561,14 @@ def go_view(script, go):
     for st, o in zip(script["steps"], go.get("obs") or []):
         if st["op"] in ("wait_caller", "cancel") and o.get("res") == "ok" and st["caller"] not in first_seen:
             first_seen[st["caller"]] = o
+    # a `reply` step answers the frame with index `to`: find the caller that frame belongs to (by content)
+    for p in peer:
+        p["answers"] = None
+        if p.get("to") is not None and 0 <= p["to"] < len(frames):
+            f = frames[p["to"]]
+            own = [c for c, r in reqs.items() if (r["typ"], r["len"], r["hash"]) == (f.get("typ"), f.get("len"), f.get("hash"))]
+            if len(own) == 1:
+                p["answers"] = own[0]
     return dict(frames=frames, peer=peer, callers=callers, reqs=reqs, first_seen=first_seen)
 
 
@@ -568,8 +587,19 @@ def pred_c03(view):
         if res.get("res") != "ok" or c not in view["reqs"] or view["reqs"][c]["api"] == "Shutdown":
             continue
         ids = wire_id_of(view, c)
-        cands = [p for p in view["peer"] if not p["first"] and p.get("cut") is None and p["typ"] == res["typ"]
-                 and ((p["len"] == res["len"] and p["hash"] == res["hash"]) or (p["len"] > MAX_BUFFERED and res["len"] == 0))]
+        cands = [p for p in view["peer"] if not p["first"] and p.get("cut") is None and p.get("skip") is None
+                 and p["typ"] == res["typ"] and p["len"] == res["len"] and p["hash"] == res["hash"]]
+        big = [p for p in view["peer"] if not p["first"] and p["typ"] == res["typ"] and p["len"] > MAX_BUFFERED and p["id"] in ids]
+        if not cands and big and res["len"] != big[0]["len"]:
+            bad.append(("reply-payload-differs", "caller %d was sent a reply of %d bytes (beyond the 640 KiB buffering limit) and got a "
+                        "SUCCESS with %d bytes: a reply too large to buffer must come back as an error or in full" % (
+                            c, big[0]["len"], res["len"])))
+            continue
+        foreign = [p for p in cands if p.get("answers") is not None and p["answers"] != c]
+        if foreign and not [p for p in cands if p.get("answers") in (None, c)]:
+            bad.append(("reply-misdelivered", "caller %d received the peer's answer to caller %d's request (frame id %d): "
+                        "the two requests carried the same message id on the wire" % (c, foreign[0]["answers"], foreign[0]["id"])))
+            continue
         mine = [p for p in cands if p["id"] in ids] if ids else []
         if res["typ"] in UNSOLICITED:
             bad.append(("unsolicited-delivered-as-reply",
@@ -655,6 +685,11 @@ def pred_c07(view, strict_pending=4):
     pending = []      # keep-alive ids not yet acknowledged (in order)
     must = []         # [id, must_be_acked, acked]
     for kind, mid in order:
+        if kind == "ka-unread":
+            if view.get("serving", True):
+                bad.append(("keepalive-not-read", "keep-alive id %d was not even read by the client although the connection is up "
+                            "(the read loop is stuck)" % mid))
+            continue
         if kind == "ka":
             must.append([mid, len([m for m in must if not m[2]]) <= strict_pending, False])
         elif kind == "ack":
@@ -683,6 +718,8 @@ def c07_order(script, go):
         if op == "keepalive" or (op == "peer_send" and st.get("typ") == T_KA):
             if o.get("st") == "ok":
                 order.append(("ka", st.get("id", 0)))
+            elif o.get("st") == "blocked":
+                order.append(("ka-unread", st.get("id", 0)))
         elif op == "expect_frame" and o.get("st") == "ok" and o["typ"] == T_ACK:
             order.append(("ack", o["id"]))
         elif op == "drain":
@@ -691,6 +728,58 @@ def c07_order(script, go):
                     order.append(("ack", f["id"]))
     drained = any(st["op"] == "drain" for st in script["steps"][-3:])
     return order, drained
+
+
+# ---------------------------------------------------------------- raw wire
+def judge_raw(script, go, view=None):
+    """C05 on the raw bytes the peer took off the wire (peer_read / drain_raw): whole frames, each one a caller's
+    request / an acknowledgement / a negotiation message, plus at most one unfinished frame at the very end whose
+    bytes are consistent with the beginning of such a frame. Independent python parser."""
+    bad = []
+    fin = go.get("final") or {}
+    hx = fin.get("raw_hex")
+    if hx is None:
+        return bad
+    raw = bytes.fromhex(hx)
+    view = view or go_view(script, go)
+    want = {}    # (typ, lenfield) -> set of payload hashes
+    for r in view["reqs"].values():
+        want.setdefault((r["typ"], 10 + r["len"]), set()).add(r["hash"])
+    pos, k = 0, 0
+    while pos < len(raw):
+        rest = raw[pos:]
+        if len(rest) >= 2:
+            typ = (rest[0] & 3) << 8 | rest[1]
+            if rest[0] >> 5:
+                bad.append(("raw-stream-not-frames", "frame %d at offset %d: reserved header bits set (%s)" % (k, pos, rest[:10].hex())))
+                return bad
+            cand = [key for key in want if key[0] == typ] + ([(typ, 10)] if typ in (T_ACK, T_GSV) else []) + ([(typ, 11)] if typ == T_SPV else [])
+            if not cand:
+                bad.append(("raw-stream-not-frames", "at offset %d the wire continues with %s: not the beginning of any frame the client "
+                            "had to write (frames so far: %d)" % (pos, rest[:10].hex(), k)))
+                return bad
+            if len(rest) >= 6:
+                lf = int.from_bytes(rest[2:6], "big")
+                if not any(cl == lf for _, cl in cand):
+                    bad.append(("raw-stream-not-frames", "at offset %d: header %s announces type %d with length %d, which no request has" % (
+                        pos, rest[:10].hex(), typ, lf)))
+                    return bad
+                if len(rest) >= lf:
+                    body = rest[10:lf]
+                    if (typ, lf) in want and phash(body) not in want[(typ, lf)]:
+                        bad.append(("foreign-frame", "raw frame %d (typ %d len %d): payload is not the caller's" % (k, typ, lf - 10)))
+                    pos += lf
+                    k += 1
+                    continue
+        # an unfinished frame: must be the end of what was written
+        break
+    return bad
+
+
+def run_pred_only(exe, scripts, shards=8):
+    """Go-only scenarios (steps without a model counterpart): returns [(script, observation)]"""
+    go, _ = run_go(exe, scripts, shards=shards)
+    return list(zip(scripts, go))
 
 
 # ---------------------------------------------------------------- stress traces
@@ -773,6 +862,10 @@ def judge_stress(tr):
 # ---------------------------------------------------------------- running
 def build(pid):
     """(exe, error) — harness binary for this check (rebuilt from /repo's working tree) and the oracle"""
+    # the oracle extracts Client/Script.v, which is not a dependency of any Props target: make sure its .vo is current
+    ok, log = vlib.coq_build(["Client/Script.vo"])
+    if not ok:
+        return None, "coq/Client/Script.v does not compile: " + vlib.first_coq_error(log)
     rc, log = vlib.build_oracle("client")
     if rc != 0:
         return None, "oracle for the client model does not build: " + log[-1500:]
